@@ -566,6 +566,20 @@ def c06_family(tier):
     mk('tee-dies/b', tee(), ['b'], [None])
     mk('rejoin2-dies/b2?', [src(N, period=period), relay('b1', ['src']), sink('snk', ['b1']), sink('b2', ['src'])], ['b2'], [None])
 
+    # a consumer that is not a required output falls silent for longer than the connection timeout: the others must not wait for it
+    for k in [1, 3]:
+        s = timely(scn(f'tee-silent/b@{k}', [src(N, period=period), sink('a', ['src']), sink('b', ['src;main>x'], [('stall_from', k, 60_000)])]),
+                   quiet=10**9, horizon=C06_CT + 5 * 100 + 1500)
+        s['conn_timeout'] = C06_CT
+        s['c06_bound'] = C06_CT + 5 * 100
+        out.append(s)
+
+    s = timely(scn('chain3-silent-side/l', [src(N, period=period), relay('mid', ['src']), sink('snk', ['mid']), sink('l', ['mid;main>x'], [('stall_from', 2, 60_000)])]),
+               quiet=10**9, horizon=C06_CT + 5 * 100 + 1500)
+    s['conn_timeout'] = C06_CT
+    s['c06_bound'] = C06_CT + 5 * 100
+    out.append(s)
+
     # a required output is missing for 2 s: the publisher waits for it and resumes when it is back
     mk('chain3-required/mid', ch(True), ['mid'], [2000])
     mk('chain3-required/snk', ch(True), ['snk'], [2000])
